@@ -551,6 +551,9 @@ def _compile_call(node, C, reading):
                 raise Undefined('str() of a non-primitive')
             if is_num(v):
                 check_num(v)
+                if isinstance(v, float) and v.is_integer():
+                    # HPL has one NUMBER type; whether 1.0 prints as "1" or "1.0" is not documented
+                    raise Ambiguous('str() of an integral float')
             return str(v)
         return f_str
     if name in ('len', 'sum', 'prod') and n == 1:
